@@ -49,15 +49,32 @@ theorem scode_delete (w : Bool) (KC : Codec K) (VC : Codec V) (m : Store) (k : K
   | none => scode_eval
   | some kb => cases hf : F.kv1 <;> cases w <;> scode_eval
 
+theorem bulkDelete_err (m : Store) (p : Bytes × Bytes → Bool) (full : Store) (F : SFaults) (st : Store) (e : SErr)
+    (h : bulkDelete m p full F = (st, some e)) : e = .kv := by
+  unfold bulkDelete at h
+  split at h
+  · simp at h; exact h.2.symm
+  · split at h
+    · split at h <;> simp at h; exact h.2.symm
+    · simp at h
+
 theorem scode_deletePrefix (w : Bool) (KC : Codec K) (VC : Codec V) (m : Store) (pfx : Bytes) (F : SFaults) :
     sexecPass w KC VC sprog.deletePrefix m pfx F = sdeletePrefix m pfx F := by
-  simp only [sprog, code_DeletePrefix]
-  cases hf : F.kv1 <;> cases w <;> scode_eval
+  simp only [sprog, code_DeletePrefix, sexecPass, sexec, sstart, sdeletePrefix]
+  cases hb : bulkDelete m (fun e => pfx.isPrefixOf e.1) (m.deletePrefix pfx) F with
+  | mk st o =>
+    cases o with
+    | none => simp [SEV.isNil]
+    | some e => have := bulkDelete_err _ _ _ _ _ _ hb; subst this; cases w <;> simp [serrW, SEV.isNil, SEV.kind]
 
 theorem scode_clear (w : Bool) (KC : Codec K) (VC : Codec V) (m : Store) (pfx : Bytes) (F : SFaults) :
     sexecPass w KC VC sprog.clear m pfx F = sclear m F := by
-  simp only [sprog, code_Clear]
-  cases hf : F.kv1 <;> cases w <;> scode_eval
+  simp only [sprog, code_Clear, sexecPass, sexec, sstart, sclear]
+  cases hb : bulkDelete m (fun _ => true) [] F with
+  | mk st o =>
+    cases o with
+    | none => simp [SEV.isNil]
+    | some e => have := bulkDelete_err _ _ _ _ _ _ hb; subst this; cases w <;> simp [serrW, SEV.isNil, SEV.kind]
 
 /-! ## `Iterate`: the consumer closure, the store's loop, the error plumbing -/
 
